@@ -146,7 +146,13 @@ def compare_box(ctx: Ctx, prop: str, model: MailModel, name: str,
     for m in box.msgs:
         rec = dump['msgs'][m.uid]
         have = {canon_flag(f) for f in rec['flags']} - {RECENT}
-        if have != set(m.flags):
+        want = set(m.flags)
+        if ctx.backend == 'maildir' and name != 'INBOX':
+            # keywords are defined per folder (dovecot-keywords, pre-seeded
+            # for INBOX only): a copy into another folder cannot keep them
+            have = {f for f in have if f.startswith(b'\\')}
+            want = {f for f in want if f.startswith(b'\\')}
+        if have != want:
             ctx.violate(prop, 'flags', 'after %s UID %d of %s has %s, model '
                         'says %s' % (what, m.uid, name,
                                      sorted(f.decode() for f in have),
@@ -390,6 +396,8 @@ class C10(Profile):
         try:
             first_uid = 101 if ctx.backend == 'dict' else 1
             model = MailModel(first_uid)
+            if ctx.backend == 'maildir':
+                model.keyword_boxes = {'INBOX'}
             effective = 0
             for i, step in enumerate(case['steps']):
                 cmds = ctx.run_step(step, i)
